@@ -240,6 +240,9 @@ func c11Run(ci interface{}, r *core.Rec) {
 		m := lin.New(n, n)
 		sing := 0
 		for idx := c.Lo; idx < c.Hi; idx++ {
+			if idx&4095 == 0 {
+				r.Heartbeat()
+			}
 			v := idx
 			for i := 0; i < n; i++ {
 				for j := 0; j < n; j++ {
